@@ -385,7 +385,7 @@ class Task:
         self.before = set()  # queries evaluated (started) before this task first ran
         self.reentrant = False  # pre-empted inside a step, or stepped from inside another task's step
         self.first_step_clock = None  # logical time of this task's first next()
-        self.step_clocks = []  # logical times of all its next() calls
+        self.step_intervals = []  # [begin, end] in logical time of each of its next() calls (end None while it executes)
 
 
 def query_var_ids(scenario: Dict, qd: Dict) -> set:
@@ -578,9 +578,10 @@ def execute_c03(scenario: Dict) -> Dict:
             "shares": share,
             "same_query_overlap": same_query_overlap,
             "same_query_overlap_tasks": sorted(o for o in task.overlaps if tasks[o].qi == task.qi),
-            # another evaluation of the same query object was STARTED or ADVANCED while this one was live (closing or
-            # dropping a dormant one is no disturbance: a suspended generator that is never resumed writes nothing)
-            "same_query_disturbed": any(tasks[o].qi == task.qi and any(c > (task.first_step_clock or 0) for c in tasks[o].step_clocks) for o in task.overlaps),
+            # another evaluation of the same query object was EXECUTING at some moment after this one had started - it
+            # was started or advanced later, or this one runs nested inside one of its steps (closing or dropping a
+            # dormant one is no disturbance: a suspended generator that is never resumed writes nothing)
+            "same_query_disturbed": any(tasks[o].qi == task.qi and any(iv[1] is None or iv[1] > (task.first_step_clock or 0) for iv in tasks[o].step_intervals) for o in task.overlaps),
             "shared_node_overlap": expression_overlap,
             "reevaluation": task.qi in task.before,
             "reentrant": task.reentrant,
@@ -655,7 +656,7 @@ def execute_c03(scenario: Dict) -> Dict:
             evaluated_before.add(task.qi)
         note_overlap(task)
         step_clock[0] += 1
-        task.step_clocks.append(step_clock[0])
+        task.step_intervals.append([step_clock[0], None])
         if task.first_step_clock is None:
             task.first_step_clock = step_clock[0]
         outer_phase, outer_events, outer_hook = mon.phase, mon.step_events, mon.hook
@@ -713,6 +714,8 @@ def execute_c03(scenario: Dict) -> Dict:
             return False
         finally:
             executing.remove(task)
+            step_clock[0] += 1
+            task.step_intervals[-1][1] = step_clock[0]
             mon.hook = outer_hook
             if executing:
                 mon.phase, mon.step_events = outer_phase, outer_events
